@@ -36,7 +36,15 @@ impl WarmUpCalculator {
         // the float-to-integer casts saturate for huge thresholds: keep the sum saturating as well
         let max_token = warning_token
             .saturating_add(((warm_up_period * threshold / cold_factor_plus) as u64).saturating_mul(2));
-        let slope = cold_factor_minus / threshold / (max_token - warning_token) as f64;
+        // the warm-up range holds at least one token: for a small `period * threshold` both integer
+        // quotients above can leave it empty, the slope then was a division by zero and the allowed
+        // threshold NaN, which the reject check (`count > threshold`) never exceeds
+        let max_token = std::cmp::max(max_token, warning_token.saturating_add(1));
+        let slope = if max_token > warning_token {
+            cold_factor_minus / threshold / (max_token - warning_token) as f64
+        } else {
+            0.0
+        };
 
         WarmUpCalculator {
             owner,
